@@ -1,4 +1,5 @@
 import CheetahModel.Proofs.DualProofs
+import CheetahModel.Proofs.DualSound
 /-!
 # C05 — autograd gradients equal the true derivatives and are finite  (partial)
 
@@ -31,5 +32,32 @@ theorem guard_transparent (k1 : ℝ) (h : k1 ≠ 0) :
 theorem guard_kills_gradient_at_zero :
     (if Scalar.eqb (Dual.var (0:ℝ)) (0.0 : Dual ℝ) then (1e-12 : Dual ℝ) else Dual.var 0).d = (0.0:ℝ) :=
   guard_dual_zero
+
+
+/-- soundness of forward-mode differentiation, operation by operation: if the operands carry (value, derivative) of `f`,
+`g` at `x`, so does the result — at every point where the real operation is differentiable (the side conditions are
+exactly the guards of C05's recorded findings) -/
+theorem ad_sound_arith {a b : Dual ℝ} {f g : ℝ → ℝ} {x : ℝ} (ha : Tracks a f x) (hb : Tracks b g x) :
+    Tracks (a + b) (fun t => f t + g t) x ∧ Tracks (a - b) (fun t => f t - g t) x ∧
+    Tracks (a * b) (fun t => f t * g t) x ∧ Tracks (-a) (fun t => -f t) x ∧
+    (g x ≠ 0 → Tracks (a / b) (fun t => f t / g t) x) :=
+  ⟨ha.add hb, ha.sub hb, ha.mul hb, ha.neg, fun h => ha.div hb h⟩
+
+theorem ad_sound_functions {a : Dual ℝ} {f : ℝ → ℝ} {x : ℝ} (ha : Tracks a f x) :
+    Tracks (Scalar.sin a) (fun t => Real.sin (f t)) x ∧ Tracks (Scalar.cos a) (fun t => Real.cos (f t)) x ∧
+    Tracks (Scalar.sinh a) (fun t => Real.sinh (f t)) x ∧ Tracks (Scalar.cosh a) (fun t => Real.cosh (f t)) x ∧
+    Tracks (Scalar.exp a) (fun t => Real.exp (f t)) x ∧ Tracks (Scalar.atan a) (fun t => Real.arctan (f t)) x ∧
+    (f x ≠ 0 → Tracks (Scalar.sqrt a) (fun t => √(f t)) x ∧ Tracks (Scalar.log a) (fun t => Real.log (f t)) x ∧
+      Tracks (Scalar.abs a) (fun t => |f t|) x) :=
+  ⟨ha.sin, ha.cos, ha.sinh, ha.cosh, ha.exp, ha.atan, fun h => ⟨ha.sqrt h, ha.log h, ha.abs h⟩⟩
+
+/-- leaves: the differentiation variable, constants, literals -/
+theorem ad_sound_leaves (c x : ℝ) : Tracks (Dual.var x) (fun t => t) x ∧ Tracks (Dual.const c) (fun _ => c) x :=
+  ⟨Tracks.var x, Tracks.const c x⟩
+
+/-- an end-to-end instance through a guarded model function: the gradient of the drift's R56 w.r.t. the beam energy -/
+theorem drift_r56_energy_gradient (L E m : ℝ) (hm : 0 < m) (hE : m < E) :
+    Tracks (driftR56 (Dual.const L) (Dual.var E) (Dual.const m)) (fun e => driftR56 L e m) E :=
+  driftR56_energy_gradient L E m hm hE
 
 end C05
